@@ -105,12 +105,15 @@ ASSUMPTIONS = [
     "because GetFormValues drops empty values (c05_roundtrip_form_zero: finding candidate); every other member kind/part/"
     "default combination round-trips and is generated",
     "Marshal model: fmt.Sprint modelled for ints, bools, strings (options=/`string` on other kinds: outside)",
-    "inherit: HEAD MERGES nested sections (child entries win, the enclosing section's entries for keys the child lacks are "
-    "added) -- pinned as the reference (Model.inh_lookup, c05_inherit); a child's nested section is therefore not 'as "
-    "written' when the parent has the same section",
+    "inherit, as HEAD behaves (pinned: Model.inh_lookup / inherit_doc, c05_inherit, c05_inherit_shallow_example): the value "
+    "under the inherit key is merged ONE level deep with the enclosing objects' values under that key (child entries win, "
+    "missing top-level entries are filled, nearest enclosing object first); a sub-section nested inside it is taken as "
+    "the child wrote it unless it is itself tagged inherit, in which case ITS key is looked up in the enclosing objects; "
+    "the merge is done IN PLACE on the decoded maps, so the outcome depends on the declaration order of the members "
+    "(c05_inherit_order_dependent) -- modelled by processing members in order on the progressively rewritten object; "
+    "sharing of sub-maps copied by reference from a parent section is not modelled (no effect found in 8000 stress cases)",
     "env=: int64 / Duration members go through time.ParseDuration (reflect.Int64 == durationType.Kind()) -- not modelled, "
-    "not generated; POINTER members with env= panic on HEAD when the variable is set (finding; C05_ENV_POINTERS=1 "
-    "puts them back into the stream once repaired)",
+    "not generated; pointer members with env= (panicked before /repo 0ecc4e6, D21) are generated",
     "observation: an untagged member of a request struct is claimed by every part of httpx.Parse (path first), so "
     "Parse fails on it for any method; the JSON-body comparison uses fully tagged shapes",
     "c05_roundtrip (httpc.buildRequest -> httpx.Parse): correspondence only (12% of the cases: request structs with "
@@ -1181,8 +1184,14 @@ def hist_pairs(case, obs):
 
 # ----------------------------------------------------------------------------- inherit with nested sections
 def inherit_case(rng):
-    """a section (tls) declared at the top and again, tagged inherit, inside a nested struct (and its child): the child
-    writes the whole section, a part of it, a scalar in its place, or nothing; scalars are inherited too"""
+    """sections declared at the top and again, tagged inherit, inside a nested struct (and its child).
+    Shape 1: the inherited section is flat (tls = {cert, key, min}).
+    Shape 2: the inherited section (etcd) CONTAINS a nested sub-section (etcd.tls) that is not tagged: HEAD fills only the
+             top-level entries of etcd the child lacks; etcd.tls is taken exactly as the child wrote it (absent optional ->
+             zero, default -> default, absent required -> failure).
+    Shape 3: the nested sub-section is tagged inherit as well: its key is looked up in the enclosing OBJECTS (the child's
+             section, rpc, the top), not inside the parent's section.
+    The child writes a section in full, in part, as a scalar, or not at all; scalars are inherited too."""
     def tls(extra=False):
         fs = [field("C", "cert", P("str")), field("K", "key", P("str"), mkopts(optional=True)),
               field("M", "min", P("int"), mkopts(default="12"))]
@@ -1191,15 +1200,37 @@ def inherit_case(rng):
         return struct(fs)
     extra = rng.random() < 0.4
     inh = lambda **kw: mkopts(inherit=True, **kw)
-    grand = struct([field("T", "tls", tls(extra), inh()), field("N", "name", P("str"), inh(optional=rng.random() < 0.5))])
+    nested = rng.random() < 0.6                  # shapes 2 / 3
+    nested_inh = nested and rng.random() < 0.4   # shape 3
+
+    def etcd():
+        sub_o = inh(optional=rng.random() < 0.3) if nested_inh else mkopts(optional=rng.random() < 0.3)
+        fs = [field("H", "hosts", P("str"), mkopts(optional=True)), field("T", "tls", tls(extra), sub_o)]
+        if rng.random() < 0.4:
+            fs.append(field("A", "auth", struct([field("U", "user", P("str")), field("W", "pass", P("str"), mkopts(optional=True)),
+                                                 field("D", "ttl", P("int"), mkopts(default="30"))]), mkopts(optional=rng.random() < 0.5)))
+        return struct(fs)
+    etcd_t = etcd() if nested else None
+    grand_fs = [field("T", "tls", tls(extra), inh()), field("N", "name", P("str"), inh(optional=rng.random() < 0.5))]
+    if nested and rng.random() < 0.5:
+        grand_fs.append(field("E", "etcd", etcd_t, inh(optional=rng.random() < 0.5)))
+    grand = struct(grand_fs)
     child_fs = [field("T", "tls", tls(extra), inh(optional=rng.random() < 0.3)), field("N", "name", P("str"), inh()),
                 field("O", "timeout", P("int"), inh(optional=True))]
-    if rng.random() < 0.5:
+    if nested:
+        child_fs.append(field("E", "etcd", etcd_t, inh(optional=rng.random() < 0.3)))
+    has_sub = rng.random() < 0.5
+    if has_sub:
         child_fs.append(field("G", "sub", grand, mkopts(optional=rng.random() < 0.5)))
-    if rng.random() < 0.3:
+    has_peers = rng.random() < 0.3
+    if has_peers:
         child_fs.append(field("L", "peers", {"k": "slice", "e": struct([field("T", "tls", tls(extra), inh(optional=True))])}, mkopts(optional=True)))
-    shape = struct([field("T", "tls", tls(extra), mkopts(optional=rng.random() < 0.2)), field("N", "name", P("str"), mkopts(optional=rng.random() < 0.3)),
-                    field("O", "timeout", P("int"), mkopts(optional=True)), field("R", "rpc", struct(child_fs), mkopts(optional=rng.random() < 0.2))])
+    top_fs = [field("T", "tls", tls(extra), mkopts(optional=rng.random() < 0.2)), field("N", "name", P("str"), mkopts(optional=rng.random() < 0.3)),
+              field("O", "timeout", P("int"), mkopts(optional=True))]
+    if nested:
+        top_fs.append(field("E", "etcd", etcd_t, mkopts(optional=rng.random() < 0.2)))
+    top_fs.append(field("R", "rpc", struct(child_fs), mkopts(optional=rng.random() < 0.2)))
+    shape = struct(top_fs)
 
     def section(full):
         pairs = []
@@ -1222,23 +1253,91 @@ def inherit_case(rng):
         if r < 0.72:
             return [("tls", rng.choice([S("x"), N(1), NULL, A([]), O([])]))]
         return []
+
+    def etcd_doc(full):
+        pairs = []
+        if rng.random() < (0.8 if full else 0.4):
+            pairs.append(("hosts", S(rng.choice(["ph", "ch"]))))
+        r = rng.random()
+        if full or r < 0.75:
+            pairs.append(("tls", section(full and rng.random() < 0.8)))
+        elif r < 0.8:
+            pairs.append(("tls", rng.choice([S("x"), NULL, O([])])))
+        if any(f["key"] == "auth" for f in etcd_t["f"]) and rng.random() < (0.8 if full else 0.5):
+            a = [("user", S(rng.choice(["pu", "cu"])))] if (full or rng.random() < 0.6) else []
+            if rng.random() < (0.7 if full else 0.3):
+                a.append(("pass", S("pw")))
+            if rng.random() < (0.7 if full else 0.3):
+                a.append(("ttl", N(rng.choice([5, 60]))))
+            pairs.append(("auth", O(a)))
+        return O(pairs)
+
+    def maybe_etcd():
+        if not nested:
+            return []
+        r = rng.random()
+        if r < 0.65:
+            return [("etcd", etcd_doc(False))]
+        if r < 0.72:
+            return [("etcd", rng.choice([S("x"), NULL, O([])]))]
+        return []
     top = ([("tls", section(rng.random() < 0.7))] if rng.random() < 0.9 else []) + ([("name", S("top"))] if rng.random() < 0.85 else [])
+    if nested and rng.random() < 0.92:
+        top.append(("etcd", etcd_doc(True)))
     if rng.random() < 0.5:
         top.append(("timeout", N(5)))
-    rpc = maybe_section() + ([("name", S("child"))] if rng.random() < 0.3 else []) + ([("timeout", N(9))] if rng.random() < 0.2 else [])
-    if any(f["key"] == "sub" for f in child_fs) and rng.random() < 0.8:
-        rpc.append(("sub", O(maybe_section() + ([("name", S("grand"))] if rng.random() < 0.3 else []))))
-    if any(f["key"] == "peers" for f in child_fs) and rng.random() < 0.7:
+    rpc = maybe_section() + maybe_etcd() + ([("name", S("child"))] if rng.random() < 0.3 else []) + ([("timeout", N(9))] if rng.random() < 0.2 else [])
+    if has_sub and rng.random() < 0.8:
+        rpc.append(("sub", O(maybe_section() + (maybe_etcd() if any(f["key"] == "etcd" for f in grand_fs) else []) +
+                            ([("name", S("grand"))] if rng.random() < 0.3 else []))))
+    if has_peers and rng.random() < 0.7:
         rpc.append(("peers", A([O(maybe_section()) for _ in range(rng.randint(1, 2))])))
     if rng.random() < 0.9:
         top.append(("rpc", O(rpc)))
     rng.shuffle(top)
-    return mkcase(rng, shape, O(top), ["inherit"], with_conf=False)
+    return mkcase(rng, shape, O(top), ["inherit", "nested-inherit" if nested_inh else ("nested" if nested else "flat")], with_conf=False)
+
+
+def inherit_fixed(rng):
+    """the probed situations, in every run (A1-A4: nested sub-section not tagged; B/C: tagged as well)"""
+    out = []
+    tls = lambda: struct([field("C", "cert", P("str")), field("K", "key", P("str"), mkopts(optional=True)), field("M", "min", P("int"), mkopts(default="12"))])
+    inh = mkopts(inherit=True)
+    etcd = lambda sub_o: struct([field("H", "hosts", P("str"), mkopts(optional=True)), field("T", "tls", tls(), sub_o)])
+    ptls = O([("cert", S("pc")), ("key", S("pk")), ("min", N(13))])
+    petcd = ("etcd", O([("hosts", S("ph")), ("tls", ptls)]))
+
+    def mk(shape, pairs, label):
+        out.append(mkcase(rng, shape, O(pairs), ["inherit", "fixed", label], with_conf=False))
+    shA = struct([field("E", "etcd", etcd(mkopts())), field("R", "rpc", struct([field("E", "etcd", etcd(mkopts()), inh)]))])
+    mk(shA, [petcd, ("rpc", O([("etcd", O([("tls", O([("cert", S("cc"))]))]))]))], "A1")
+    mk(shA, [petcd, ("rpc", O([("etcd", O([("tls", O([("key", S("ck"))]))]))]))], "A2")
+    mk(shA, [petcd, ("rpc", O([("etcd", O([("hosts", S("ch"))]))]))], "A3")
+    mk(shA, [petcd, ("rpc", O([]))], "A4")
+    mk(shA, [petcd, ("rpc", O([("etcd", O([("tls", O([("cert", S("cc")), ("min", N(1))]))]))]))], "A5")
+    shB = struct([field("E", "etcd", etcd(mkopts())), field("T", "tls", tls(), mkopts(optional=True)),
+                  field("R", "rpc", struct([field("E", "etcd", etcd(inh), inh)]))])
+    mk(shB, [petcd, ("rpc", O([("etcd", O([("tls", O([("cert", S("cc"))]))]))]))], "B1")
+    mk(shB, [petcd, ("tls", O([("cert", S("tc")), ("key", S("tk")), ("min", N(9))])), ("rpc", O([("etcd", O([("tls", O([("cert", S("cc"))]))]))]))], "B2")
+    shC = struct([field("T", "tls", tls()), field("R", "rpc", struct([field("T", "tls", tls(), mkopts(optional=True)), field("E", "etcd", etcd(inh))]))])
+    ttls = ("tls", O([("cert", S("tc")), ("key", S("tk")), ("min", N(9))]))
+    mk(shC, [ttls, ("rpc", O([("etcd", O([("tls", O([("cert", S("cc"))]))]))]))], "C1")
+    mk(shC, [ttls, ("rpc", O([("tls", O([("cert", S("rc")), ("key", S("rk"))])), ("etcd", O([("tls", O([("cert", S("cc"))]))]))]))], "C2")
+    mk(shC, [ttls, ("rpc", O([("etcd", O([]))]))], "C3")
+    # the merge is done in place on the decoded maps: the same document gives rpc.etcd.tls.key = "pk" when `etcd` is
+    # declared before `rpc` (top.etcd.tls was already filled from top.tls) and "" when it is declared after; the null
+    # under rpc.tls stops the lookup there
+    tls2 = lambda: struct([field("C", "cert", P("str")), field("K", "key", P("str"), mkopts(optional=True))])
+    etcd2 = lambda: struct([field("T", "tls", tls2(), inh)])
+    rpc2 = lambda: struct([field("T", "tls", tls2(), mkopts(optional=True, inherit=True)), field("E", "etcd", etcd2(), mkopts(optional=True, inherit=True))])
+    doc2 = [("tls", O([("cert", S("cc")), ("key", S("pk"))])), ("etcd", O([("tls", O([("cert", S("pc"))]))])), ("rpc", O([("tls", NULL)]))]
+    mk(struct([field("T", "tls", tls2()), field("E", "etcd", etcd2()), field("R", "rpc", rpc2())]), doc2, "order-etcd-first")
+    mk(struct([field("T", "tls", tls2()), field("R", "rpc", rpc2()), field("E", "etcd", etcd2())]), doc2, "order-rpc-first")
+    return out
 
 
 # ----------------------------------------------------------------------------- env= members
 _ENV_SEQ = [0]
-ENV_POINTERS = os.environ.get("C05_ENV_POINTERS") == "1"
 
 
 def env_case(rng):
@@ -1246,9 +1345,8 @@ def env_case(rng):
     _ENV_SEQ[0] += 1
     name = "C05E_%d_%d_%d" % (os.getpid(), rng.randrange(10 ** 9), _ENV_SEQ[0])
     k = rng.choice(["str", "str", "int", "uint8", "int32", "bool"])
-    # ENV_POINTERS: a pointer member with env= PANICS on HEAD when the variable is set (processFieldWithEnvValue does not
-    # allocate it: `*int json:"v,env=X"`, X=300 -> reflect.Value.OverflowInt on zero Value).  Reported; switch on once repaired.
-    t = P(k) if (not ENV_POINTERS or rng.random() < 0.8) else {"k": "ptr", "e": P(k)}
+    # pointer members: repaired by /repo 0ecc4e6 (D21: the env path did not allocate the pointer and panicked)
+    t = P(k) if rng.random() < 0.75 else {"k": "ptr", "e": P(k)}
     o = mkopts(optional=rng.random() < 0.5)
     if k == "str":
         o["options"] = rng.choice([["dev", "test", "prod"], ["Info", "warn"], []])
@@ -1277,12 +1375,12 @@ def env_fixed(rng):
     """options= on the env route, in every run: letter case, blanks, prefix, superstring; numbers by their text"""
     out = []
 
-    def mk(k, o, val):
+    def mk(k, o, val, ptr=False):
         _ENV_SEQ[0] += 1
         name = "C05E_%d_%d_%d" % (os.getpid(), rng.randrange(10 ** 9), _ENV_SEQ[0])
         tag_o = dict(o)
         tag_o["env"] = name
-        f = field("V", "v", P(k), o)
+        f = field("V", "v", {"k": "ptr", "e": P(k)} if ptr else P(k), o)
         f["tag"] = render_tag("v", tag_o)
         c = mkcase(rng, struct([]), O([]), ["env", "fixed"], with_yaml=False, with_conf=False)
         c["env"] = {"name": name, "value": val}
@@ -1294,6 +1392,11 @@ def env_fixed(rng):
         mk("int", mkopts(options=["10", "25"]), val)
     mk("int32", mkopts(rng=(1, True, 50, True)), "51")
     mk("uint8", mkopts(), "256")
+    mk("int", mkopts(optional=True), "300", ptr=True)          # D21
+    mk("int8", mkopts(optional=True), "300", ptr=True)
+    mk("uint16", mkopts(options=["10", "25"]), "10", ptr=True)
+    mk("str", mkopts(optional=True), "abc", ptr=True)
+    mk("bool", mkopts(optional=True), "true", ptr=True)
     return out
 
 
@@ -1513,6 +1616,7 @@ def generate(rng, tier, n):
             cases.append(known_case(rng, tpl))
         cases.extend(direct_fixed(rng))
         cases.extend(env_fixed(rng))
+        cases.extend(inherit_fixed(rng))
         for size in BIG_SIZES:                      # the size dimension: every size in every run (1 MB once)
             cases.append(big_case(rng, size))
         cases.append(big_rt_case(rng, rng.choice([4096, 4097, 65536])))
@@ -1564,7 +1668,7 @@ def generate(rng, tier, n):
 
 
 def search(rng, problems):
-    return directed(rng) + direct_fixed(rng) + env_fixed(rng)
+    return directed(rng) + direct_fixed(rng) + env_fixed(rng) + inherit_fixed(rng)
 
 
 def drive(cases, tier):
